@@ -75,10 +75,12 @@ class MemCIA(CIA):
             # NaN temperature (e.g. a negative Guillot opacity): the real CIA
             # readers clamp the index and let the NaN propagate
             return np.full(self._tab.shape[1], np.nan)
+        # outside the tabulated temperatures the real readers hand back a row
+        # of their table (a view, not a copy): so does this one
         if temperature <= t[0]:
-            return self._tab[0].copy()
+            return self._tab[0]
         if temperature >= t[-1]:
-            return self._tab[-1].copy()
+            return self._tab[-1]
         i = int(np.searchsorted(t, temperature)) - 1
         f = (temperature - t[i]) / (t[i + 1] - t[i])
         return self._tab[i] * (1 - f) + self._tab[i + 1] * f
@@ -94,14 +96,23 @@ def opac_tables(ocfg, molecules, pairs):
     pgrid = np.logspace(-2, 7, ocfg.get('nP', 4))
     mlo, mhi = ocfg['logmag']
     ops, cias = {}, {}
+    own = ocfg.get('own_grid', {})
     for m in molecules:
         rs = np.random.RandomState(H(ocfg['seed'], 'xsec', m) % 2**32)
         x = 10 ** rs.uniform(mlo, mhi, size=(len(pgrid), len(tgrid), n))
-        ops[m] = (wn, tgrid, pgrid, x)
+        g = wn
+        if own.get(m) == 'lin':
+            # this molecule's table lives on its own grid: same end points
+            # and number of points, evenly spaced
+            g = np.linspace(wn[0], wn[-1], n)   # exactly the same ends
+        ops[m] = (g, tgrid, pgrid, x)
+    ct = tgrid
+    if ocfg.get('cia_T'):
+        ct = np.linspace(ocfg['cia_T'][0], ocfg['cia_T'][1], len(tgrid))
     for p in pairs:
         rs = np.random.RandomState(H(ocfg['seed'], 'cia', p) % 2**32)
-        x = 10 ** rs.uniform(-56, -52, size=(len(tgrid), n))
-        cias[p] = (wn, tgrid, x)
+        x = 10 ** rs.uniform(-56, -52, size=(len(ct), n))
+        cias[p] = (wn, ct, x)
     return ops, cias
 
 
